@@ -9,6 +9,7 @@ from __future__ import annotations
 import copy
 import logging
 import math
+import pickle
 from datetime import datetime, timedelta
 from pathlib import Path
 from time import time as tm
@@ -1635,10 +1636,16 @@ class Image:
         """
         # Make sure the parent directory exists
         Path(path).parent.mkdir(parents=True, exist_ok=True)
+        # NOTE: numpy pickles objects with a protocol that drops the fold of datetimes
+        # (repeated hour at the end of daylight saving time); pickle the metadata here.
+        metadata = np.frombuffer(
+            pickle.dumps(self.metadata(), protocol=pickle.HIGHEST_PROTOCOL),
+            dtype=np.uint8,
+        )
         np.savez(
             str(Path(path)),
             array=self.img,
-            metadata=self.metadata(),
+            metadata=metadata,
             kind=type(self).__name__,
             original_dtype=str(np.dtype(self.original_dtype)),
         )
